@@ -19,7 +19,7 @@ ASSUMPTIONS = ['token domains: no blank, no backslash; ptb: round brackets only 
                'ja trees carry the rule symbols of the Japanese grammar (the reader recognises exactly those)']
 REQUIRED_MONITORS = {'read_ptb:trees': 200, 'read_ptb:incomplete-lines': 500, 'read_ccgbank:trees-plain': 200,
                      'read_ccgbank:trees-annotated': 200, 'ptb:bracket-tokens': 20,
-                     'read_ptb:long-chains': 2, 'read_ccgbank:long-chains': 2}
+                     'read_ptb:long-chains': 2, 'read_ptb:repeated-lines': 30, 'read_ccgbank:long-chains': 2}
 
 
 def shards(tier, seed):
@@ -169,6 +169,27 @@ def run_ptb(spec, R, rng, path):
                 R.violation(f'read_ptb:{kind}', msg, dict(wit, line=line))
             if [t.get('word') for t in rr.tokens] != [t.token.get('word') for t in rr.tree.leaves]:
                 R.violation('read_ptb:words', 'token list returned by the reader differs from the leaves of its tree', dict(wit, line=line))
+        # a file of bare tree lines (ptb_of, no ID lines) in which the same tree stands on consecutive lines: every line is a tree
+        if i % 3 == 0:
+            k = rng.randrange(len(lines))
+            seq = list(zip(flat, lines))
+            seq = seq[:k + 1] + [seq[k]] * rng.choice((1, 1, 2)) + seq[k + 1:]
+            with open(path, 'w', encoding='utf-8') as f:
+                f.write(''.join(l + '\n' for _, l in seq))
+            try:
+                read2 = list(read_ptb(path))
+            except Exception as e:
+                read2 = None
+                R.violation('read_ptb:raises', f'read_ptb raised {e!r} on a file with a repeated tree line', dict(wit, text=text[:1500]))
+            if read2 is not None:
+                R.count('read_ptb:repeated-lines')
+                if len(read2) != len(seq):
+                    R.violation('read_ptb:shape', f'{len(read2)} trees read from {len(seq)} lines (a tree repeated on consecutive lines)',
+                                dict(wit, lines=[l for _, l in seq][:6]))
+                else:
+                    for (st, line2), rr in zip(seq, read2):
+                        for kind, msg in same(st.tree, rr.tree, words, False)[:1]:
+                            R.violation(f'read_ptb:{kind}', msg, dict(wit, line=line2))
         # incomplete lines must be rejected
         line = rng.choice(lines)
         fields = line.split(' ')
